@@ -1,11 +1,12 @@
 """C20: values cross the Go boundary unchanged (tla/UgoBoundary.tla)."""
-import json
+import json, os, subprocess
 from lib import vlib
 
 RULE = ("trees: every tagged tree up to depth 2 over the 8 plain uGO kinds (u2g) and over the 8 canonical Go kinds (g2u), and every "
         "other Go kind of the width table bare / inside a slice / inside a map; TLC checks ToO o ToI = id and ToI o ToO = id on the "
         "model and exports tree + expected image; the harness instantiates every tree with 3 boundary-value variants, every width-table kind with 2 to 9 (extremes of the width, zero, float32 values that are no short decimals, subnormals; extreme "
         "integers, NaN/-Inf, invalid UTF-8, nil vs empty containers) and compares ToInterface / ToObject / ToObjectAlt; "
+        "histories: host / script write into earlier results, then a fresh equal value is converted; concurrency: 8 goroutines convert values of different registry-handled and plain types at once (race detector build), results must equal the sequential ones; "
         "non-trivial = trees with a container or a width-table kind")
 
 def run(ctx):
@@ -25,6 +26,32 @@ def run(ctx):
             continue
         key = vlib.sha(json.dumps(r["case"], sort_keys=True) + str(r["variant"]))
         ctx.violation(key, "%s (variant %d of %s)" % (r["what"], r["variant"], json.dumps(r["case"])[:300]), r)
+    # concurrent conversions (the registry is process-wide state), in a binary built with the race detector
+    exe = ctx.build_harness(race=True)
+    cres = ctx.path("conc-res.ndjson")
+    env = dict(vlib.GOENV, GORACE="halt_on_error=0 exitcode=66")
+    p = subprocess.run(["timeout", "900", exe, "c20conc", cres, "8", "150" if ctx.quick else "2000"], env=env, stdout=subprocess.PIPE, stderr=subprocess.PIPE, text=True)
+    nconc = 0
+    if os.path.exists(cres):
+        for r in vlib.read_ndjson(cres):
+            if r.get("done"):
+                nconc = r["n"]
+                continue
+            ctx.violation("conc|" + vlib.sha(r["what"][:80]), r["what"], r)
+    if "DATA RACE" in (p.stderr or ""):
+        seen = set()
+        for b in p.stderr.split("WARNING: DATA RACE")[1:]:
+            lines = [l.strip() for l in b.splitlines() if l.strip().startswith("github.com/ozanh/ugo")]
+            site = (lines[0] if lines else b.strip().splitlines()[0]).replace("()", "")
+            if site not in seen:
+                seen.add(site)
+                ctx.violation("datarace|" + site, "data race between concurrent conversions at %s\n%s" % (site, "\n".join(b.strip().splitlines()[:12])), dict(site=site))
+    elif p.returncode != 0:
+        raise vlib.Inconclusive("concurrent conversion run failed rc=%d: %s" % (p.returncode, (p.stderr or "")[-1200:]))
+    if nconc == 0:
+        raise vlib.Inconclusive("no concurrent conversions executed")
+    ctx.evaluations += nconc
+    ctx.cov["concurrent_conversions"] = nconc
     ctx.assumptions += ["boundary-value variants stand for 'all values' of a kind", "width table of UgoBoundary.tla: ToObject treats int32/uint8 as rune/byte, ToObjectAlt converts every integer width"]
 
 def replay(ctx, rec):
